@@ -134,8 +134,8 @@ Section Rules.
   Lemma double_negation_sound e e' t :
     double_negation e = Some e' -> typeof e = Some t -> rule_ok en e e' t.
   Proof.
-    unfold double_negation. destruct e as [| | |[] x| | | | | | |]; try discriminate.
-    destruct (unparen x) as [| | |[] y| | | | | | |] eqn:U; try discriminate.
+    unfold double_negation. destruct e as [| | |[] x| | | | | | | |]; try discriminate.
+    destruct (unparen x) as [| | |[] y| | | | | | | |] eqn:U; try discriminate.
     intros H T; inversion H; subst e'; clear H.
     apply typeof_not in T as [-> Tx].
     rewrite <- typeof_unparen, U in Tx. apply typeof_not in Tx as [_ Ty].
@@ -150,9 +150,9 @@ Section Rules.
   Lemma negated_equals_sound e e' t :
     negated_equals e = Some e' -> typeof e = Some t -> rule_ok en e e' t.
   Proof.
-    unfold negated_equals. destruct e as [| | | |[] l r| | | | | |]; try discriminate.
-    destruct l as [| | |[] a| | | | | | |]; try discriminate.
-    destruct r as [| | |[] b| | | | | | |]; try discriminate.
+    unfold negated_equals. destruct e as [| | | |[] l r| | | | | | |]; try discriminate.
+    destruct l as [| | |[] a| | | | | | | |]; try discriminate.
+    destruct r as [| | |[] b| | | | | | | |]; try discriminate.
     intros H T; inversion H; subst e'; clear H.
     simpl in T. destruct (typeof a) as [[]|] eqn:Ta; try discriminate.
     destruct (typeof b) as [[]|] eqn:Tb; try discriminate.
@@ -185,8 +185,8 @@ Section Rules.
     rule_ok en e e' t.
   Proof.
     unfold invert_comparison. destruct hf; [discriminate|].
-    destruct e as [| | |[] x| | | | | | |]; try discriminate.
-    destruct (unparen x) as [| | | |o a b| | | | | |] eqn:U; try discriminate.
+    destruct e as [| | |[] x| | | | | | | |]; try discriminate.
+    destruct (unparen x) as [| | | |o a b| | | | | | |] eqn:U; try discriminate.
     destruct (negate_cmp o) as [o'|] eqn:N; [|discriminate].
     intros H T HF; inversion H; subst e'; clear H.
     apply typeof_not in T as [-> Tx]. rewrite <- typeof_unparen, U in Tx.
@@ -251,9 +251,9 @@ Section Rules.
   Lemma combine_checks_sound e e' t :
     combine_checks e = Some e' -> typeof e = Some t -> rule_ok en e e' t.
   Proof.
-    unfold combine_checks. destruct e as [| | | |[] x y| | | | | |]; try discriminate.
-    destruct (unparen x) as [| | | |o1 a1 b1| | | | | |] eqn:Ux; try discriminate.
-    destruct (unparen y) as [| | | |o2 a2 b2| | | | | |] eqn:Uy; try discriminate.
+    unfold combine_checks. destruct e as [| | | |[] x y| | | | | | |]; try discriminate.
+    destruct (unparen x) as [| | | |o1 a1 b1| | | | | | |] eqn:Ux; try discriminate.
+    destruct (unparen y) as [| | | |o2 a2 b2| | | | | | |] eqn:Uy; try discriminate.
     destruct (expr_eqb a1 a2 && expr_eqb b1 b2 && side_effect_free a1 && side_effect_free b1) eqn:C; [|discriminate].
     apply andb_true_iff in C as [C S2]. apply andb_true_iff in C as [C S1]. apply andb_true_iff in C as [Ea Eb].
     apply expr_eqb_eq in Ea, Eb. subst a2 b2.
@@ -297,7 +297,7 @@ Section Rules.
 
   Lemma is_incdec_inv o e : is_incdec o e = true -> exists x0 k t1, e = EBinary o x0 (ELit k "1" t1).
   Proof.
-    destruct e as [| | | |o' l r| | | | | |]; try discriminate. destruct r; try discriminate. simpl.
+    destruct e as [| | | |o' l r| | | | | | |]; try discriminate. destruct r; try discriminate. simpl.
     intros H. apply andb_true_iff in H as [H1 H2]. apply binop_eqb_eq in H1. apply String.eqb_eq in H2. subst. eauto.
   Qed.
 
@@ -388,7 +388,7 @@ Section Rules.
     remove_incdec_prefix e = Some e' -> typeof e = Some t -> incdec_guard e = true -> rule_ok en e e' t.
   Proof.
     intros H T G. unfold incdec_guard in G. rewrite H in G.
-    destruct e as [| | | |o X Y| | | | | |]; try discriminate.
+    destruct e as [| | | |o X Y| | | | | | |]; try discriminate.
     apply negb_true_iff in G.
     destruct o; try discriminate; simpl in H;
       (eapply incdec_replace_sound; [| | | | | |exact H|exact T|exact G]; auto;
@@ -402,7 +402,7 @@ Section Rules.
   Lemma decimal_lit_inv e : decimal_lit e = true ->
     exists s t c, e = ELit LInt s t /\ parse_int_base10 s = Some c /\ go_int_lit s = Some c.
   Proof.
-    destruct e as [|k s t| | | | | | | | |]; simpl; try discriminate. destruct k; try discriminate.
+    destruct e as [|k s t| | | | | | | | | |]; simpl; try discriminate. destruct k; try discriminate.
     destruct (parse_int_base10 s) as [a|] eqn:PA; [|discriminate]. destruct (go_int_lit s) as [b|] eqn:GB; [|discriminate].
     intros H. apply Z.eqb_eq in H. subst a. exists s, t, b. auto.
   Qed.
@@ -516,9 +516,9 @@ Section Rules.
   Proof.
     intros H T HF G. unfold fold_guard in G. rewrite H in G.
     unfold fold_ranges_prefix, fold_ranges_v in H. destruct hf; [discriminate|].
-    destruct e as [| | | |eo L Rr| | | | | |]; try discriminate.
-    destruct L as [| | | |lo lx ly| | | | | |]; try discriminate.
-    destruct Rr as [| | | |ro rx ry| | | | | |]; try discriminate.
+    destruct e as [| | | |eo L Rr| | | | | | |]; try discriminate.
+    destruct L as [| | | |lo lx ly| | | | | | |]; try discriminate.
+    destruct Rr as [| | | |ro rx ry| | | | | | |]; try discriminate.
     apply andb_true_iff in G as [G1 G2].
     destruct (decimal_lit_inv _ G1) as (s1 & t1 & c1 & -> & P1 & I1).
     destruct (decimal_lit_inv _ G2) as (s2 & t2 & c2 & -> & P2 & I2).
@@ -534,7 +534,7 @@ Section Rules.
   Proof.
     unfold remove_incdec. destruct hf; [discriminate|]. intros H T HF.
     apply remove_incdec_prefix_sound; auto. unfold incdec_guard. rewrite H.
-    destruct e as [| | | |o X Y| | | | | |]; try reflexivity.
+    destruct e as [| | | |o X Y| | | | | | |]; try reflexivity.
     destruct (is_float_ty (typeof X)) eqn:F; auto.
     assert (false = true) by (apply HF; rewrite has_floats_binary, F; reflexivity). discriminate.
   Qed.
@@ -542,7 +542,7 @@ Section Rules.
   Lemma int64val_inv e c : int64val e = Some c ->
     exists s t, e = ELit LInt s t /\ go_int_lit s = Some c /\ (0 <= c)%Z.
   Proof.
-    destruct e as [|k s t| | | | | | | | |]; simpl; try discriminate. destruct k; try discriminate.
+    destruct e as [|k s t| | | | | | | | | |]; simpl; try discriminate. destruct k; try discriminate.
     destruct (go_int_lit s) as [z|] eqn:G; [|discriminate].
     destruct (z <=? int64_max)%Z; [|discriminate]. intros H; inversion H; subst.
     exists s, t. repeat split; auto.
@@ -554,9 +554,9 @@ Section Rules.
     fold_ranges hf e = Some e' -> typeof e = Some t -> (has_floats e = true -> hf = true) -> rule_ok en e e' t.
   Proof.
     intros H T HF. unfold fold_ranges, fold_ranges_v in H. destruct hf; [discriminate|].
-    destruct e as [| | | |eo L Rr| | | | | |]; try discriminate.
-    destruct L as [| | | |lo lx ly| | | | | |]; try discriminate.
-    destruct Rr as [| | | |ro rx ry| | | | | |]; try discriminate.
+    destruct e as [| | | |eo L Rr| | | | | | |]; try discriminate.
+    destruct L as [| | | |lo lx ly| | | | | | |]; try discriminate.
+    destruct Rr as [| | | |ro rx ry| | | | | | |]; try discriminate.
     destruct (side_effect_free lx && side_effect_free rx && expr_eqb lx rx) eqn:C; [|discriminate].
     apply andb_true_iff in C as [C E]. apply andb_true_iff in C as [S _]. apply expr_eqb_eq in E. subst rx.
     destruct (int64val ly) as [c1|] eqn:V1; [|discriminate].
@@ -628,7 +628,7 @@ Lemma all_nodes_unfold g hf e :
   g (rebuild_v incdec i64 hf e) &&
   match e with
   | EIdent _ _ | ELit _ _ _ | EVarK _ _ _ | ESel _ _ _ _ | EConst _ _ => true
-  | EParen x | EUnary _ x | ESliceAll x => all_nodes_v incdec i64 g hf x
+  | EParen x | EUnary _ x | ESliceAll x | EDeref x => all_nodes_v incdec i64 g hf x
   | EBinary _ l r => all_nodes_v incdec i64 g hf l && all_nodes_v incdec i64 g hf r
   | ECall _ args => all_nodes_list g hf args
   | EIndex a i => all_nodes_v incdec i64 g hf a && all_nodes_v incdec i64 g hf i
@@ -799,6 +799,17 @@ Proof.
   - apply rule_ok_refl; exact T.
   - exact T.
   - exact HF.
+  - (* EDeref *)
+    assert (exists tx, typeof e = Some tx) as [tx Tx] by (simpl in T; destruct (typeof e) as [[]|]; try discriminate; eauto).
+    destruct (IHe tx Tx HF A1 A2) as (T' & F' & E').
+    split; [|split].
+    + simpl. rewrite T'. simpl in T. rewrite Tx in T. exact T.
+    + exact F'.
+    + intros h. simpl. rewrite (E' h). reflexivity.
+  - assert (exists tx, typeof e = Some tx) as [tx Tx] by (simpl in T; destruct (typeof e) as [[]|]; try discriminate; eauto).
+    destruct (IHe tx Tx HF A1 A2) as (T' & F' & E'). simpl. rewrite T'. simpl in T. rewrite Tx in T. exact T.
+  - assert (exists tx, typeof e = Some tx) as [tx Tx] by (simpl in T; destruct (typeof e) as [[]|]; try discriminate; eauto).
+    destruct (IHe tx Tx HF A1 A2) as (T' & F' & E'). intros Hx. apply HF. apply F'. exact Hx.
 Qed.
 
 End Generic.
